@@ -402,6 +402,31 @@ impl World {
                 if so.leaf.is_some() {
                     ops.push(Op::n1(K::TouchLeaf, *p));
                     ops.push(Op::n1(K::DropLeaf, *p));
+                    if sc.barrier {
+                        for path in [1u8, 2, 3, 5, 6] {
+                            for c in &nodes {
+                                ops.push(Op::n3(K::LeafBarrier, path, *p, *c));
+                            }
+                        }
+                    }
+                }
+                if sc.weakleaf {
+                    for q in &nodes {
+                        if let Some(l) = self.sh.objs[*q as usize].leaf {
+                            if so.wl != Some(l) {
+                                ops.push(Op::n2(K::SetWeakLeaf, *p, *q));
+                            }
+                        }
+                    }
+                    if so.wl.is_some() {
+                        ops.push(Op::n1(K::ClearWeakLeaf, *p));
+                        for q in &nodes {
+                            ops.push(Op::n2(K::UpLeaf, *p, *q));
+                        }
+                        if sc.fin {
+                            ops.push(Op::n1(K::FinResLeaf, *p));
+                        }
+                    }
                 }
             }
         }
@@ -521,7 +546,7 @@ impl World {
         let mut shells = vec![false; self.sh.objs.len()];
         for (i, o) in self.sh.objs.iter().enumerate() {
             if reach[i] {
-                if let Some(t) = o.w {
+                for t in o.w.into_iter().chain(o.wl) {
                     if self.sh.objs[t as usize].dropped {
                         shells[t as usize] = true;
                     }
@@ -544,6 +569,10 @@ impl World {
         let holders: Vec<u8> = (0..self.sh.objs.len() as u8).filter(|i| reach[*i as usize] && self.sh.objs[*i as usize].w.map(|t| self.sh.objs[t as usize].dropped).unwrap_or(false)).collect();
         for h in holders {
             self.apply(Op::n1(K::ClearWeak, h))?;
+        }
+        let holders: Vec<u8> = (0..self.sh.objs.len() as u8).filter(|i| reach[*i as usize] && self.sh.objs[*i as usize].wl.map(|t| self.sh.objs[t as usize].dropped).unwrap_or(false)).collect();
+        for h in holders {
+            self.apply(Op::n1(K::ClearWeakLeaf, h))?;
         }
         self.apply(Op::n0(K::FinCycle))?;
         let cnt = self.metrics.total_gc_count();
@@ -658,7 +687,7 @@ impl World {
         if self.sc.sets == 0 {
             return self.finish();
         }
-        let other = World::new(Scope { sets: 1, ..self.sc }, 200);
+        let other = World::new(Scope { sets: 1, ..self.sc }, 512);
         {
             let this: &World = &self;
             let r = guarded("contains/try_fetch/fetch presentations", || -> VResult {
